@@ -1,9 +1,11 @@
 package main
 
 import (
+	"bytes"
 	"fmt"
 	"go/token"
 	"go/types"
+	"math"
 	"sort"
 	"strings"
 
@@ -12,19 +14,35 @@ import (
 
 const valPkg = "internal/networking/validator"
 
-func condSetSwapped(f *ssa.Function, a, b int) (plain, swapped []string) {
-	o := shapeOpts
-	o2 := shapeOpts
-	o2.swap = [2]int{a, b}
-	allInstrs(f, func(in ssa.Instruction) {
-		if i, ok := in.(*ssa.If); ok {
-			plain = append(plain, exprStr(i.Cond, o))
-			swapped = append(swapped, exprStr(i.Cond, o2))
-		}
-	})
-	sort.Strings(plain)
-	sort.Strings(swapped)
-	return
+// C29 is decided by evaluating the decision functions themselves (pure
+// integer/boolean code: compile-time style evaluation over SSA, helpers and
+// closures seen through) on a domain that is exhaustive for the abstraction
+// the specification uses, so that extracting helpers, reordering tests or
+// rewriting the boolean algebra does not change the verdict.
+
+func refWidth(n int64) int64 {
+	if n <= 0 {
+		return 1
+	}
+	w := int64(math.Sqrt(float64(n)))
+	for w*w > n {
+		w--
+	}
+	for (w+1)*(w+1) <= n {
+		w++
+	}
+	if w < 1 {
+		w = 1
+	}
+	return w
+}
+
+func refNeighbour(a, b, n int64) bool {
+	if n == 0 || a < 0 || b < 0 || a >= n || b >= n || a == b {
+		return false
+	}
+	w := refWidth(n)
+	return a/w == b/w || a%w == b%w
 }
 
 func checkC29(c *Ctx) (string, []string) {
@@ -39,186 +57,414 @@ func checkC29(c *Ctx) (string, []string) {
 	if len(c.fatal) > 0 {
 		return "", nil
 	}
-	W := V + "ComputeWidth(len(p0.Current))"
+	o := robustOpts
 
-	c.Rule("C29.width", "the grid width is the truncation of math.Sqrt(float64(n)) (no rounding, ceiling or offset), at least 1; both neighbour functions use ComputeWidth(len(Current))", 3)
-	c.checkShapes("C29.width", V+"ComputeWidth", cw, abbrMap(returnShapes(cw)), map[string][]string{"ret": {"1", "int(math.Sqrt(p0))"}})
+	c.Rule("C29.width", "ComputeWidth(n) evaluates to max(1, ⌊√n⌋) (no rounding, ceiling or offset) for every n in the validator-count range", 1)
 	{
-		// the conversion is a direct float→int truncation of the Sqrt call
-		ok := false
-		allInstrs(cw, func(in ssa.Instruction) {
-			if cv, isC := in.(*ssa.Convert); isC && isIntegerT(cv.Type()) {
-				if call, isCall := cv.X.(*ssa.Call); isCall && call.Call.StaticCallee() != nil && call.Call.StaticCallee().String() == "math.Sqrt" {
-					if inner, isCv := call.Call.Args[0].(*ssa.Convert); isCv && inner.X == ssa.Value(cw.Params[0]) {
-						ok = true
+		bad := ""
+		maxN := c.Deep(1100, 70000)
+		for n := int64(-2); n <= maxN; n++ {
+			rs, ok := runFunc(cw, intEnv{params: map[ssa.Value]int64{cw.Params[0]: n}, lens: map[ssa.Value]int64{}, unknown: map[ssa.Value]bool{}, closed: true, cells: map[ssa.Value]int64{}})
+			if !ok || len(rs) != 1 {
+				bad = fmt.Sprintf("ComputeWidth is not a pure integer function of n (evaluation stops at n=%d)", n)
+				break
+			}
+			if rs[0] != refWidth(n) {
+				bad = fmt.Sprintf("ComputeWidth(%d) evaluates to %d; the grid is ⌊√V⌋ = %d wide", n, rs[0], refWidth(n))
+				break
+			}
+		}
+		c.Check(bad == "", "C29.width", V+"ComputeWidth", cw.Pos(), fmt.Sprintf("= max(1, ⌊√n⌋) for n = -2..%d", maxN), bad)
+	}
+
+	c.Rule("C29.neighbour-relation", "IsNeighborInEpoch(a, b), evaluated for every validator-set size n and every pair of indices (including out-of-range ones), is true exactly when a ≠ b are both in range and share a row (a/w == b/w) or a column (a%w == b%w) of the ⌊√n⌋-wide grid: hence symmetric and irreflexive; NeighborIndicesInEpoch(index) collects exactly those indices in ascending order; AllNeighborValidators adds Previous[index] and Next[index] when they exist; ValidatorManager.IsNeighbor uses the in-epoch relation for current validators and the same-index cross-epoch relation otherwise", 7)
+	{
+		bad := ""
+		maxN := c.Deep(40, 140)
+		for n := int64(0); n <= maxN && bad == ""; n++ {
+			for a := int64(-1); a <= n && bad == ""; a++ {
+				for b := int64(-1); b <= n; b++ {
+					env := intEnv{params: map[ssa.Value]int64{isn.Params[1]: a, isn.Params[2]: b}, flens: map[string]int64{"Current": n}, lens: map[ssa.Value]int64{}, unknown: map[ssa.Value]bool{}, closed: true, cells: map[ssa.Value]int64{}}
+					rs, ok := runFunc(isn, env)
+					if !ok || len(rs) != 1 {
+						bad = fmt.Sprintf("IsNeighborInEpoch is not a pure function of (a, b, |Current|) (evaluation stops at n=%d a=%d b=%d)", n, a, b)
+						break
+					}
+					if (rs[0] != 0) != refNeighbour(a, b, n) {
+						bad = fmt.Sprintf("IsNeighborInEpoch(%d, %d) with %d validators evaluates to %v; sharing a row or column of the %d-wide grid gives %v", a, b, n, rs[0] != 0, refWidth(n), refNeighbour(a, b, n))
+						break
 					}
 				}
 			}
-		})
-		c.Check(ok, "C29.width", V+"ComputeWidth · truncation", cw.Pos(), "int(math.Sqrt(float64(n))) with nothing in between", "the width is not the plain truncation of the square root (rounding changes it whenever frac(√V) ≥ 0.5)")
-	}
-	for _, f := range []*ssa.Function{nb, isn} {
-		ws := callArgShapes(f, func(ci ssa.CallInstruction) bool { return calleeFunc(ci) == cw }, 0)
-		c.Check(len(ws) == 1 && ws[0] == "len(p0.Current)", "C29.width", funcKey(f)+" · width argument", f.Pos(), "width of the current validator set", fmt.Sprintf("width computed from %v", ws))
-	}
-
-	c.Rule("C29.neighbour-relation", "IsNeighborInEpoch is symmetric (its set of tests is invariant under exchanging the two indices), irreflexive (a == b ⇒ false) and holds exactly for a shared row (a/w == b/w) or column (a%w == b%w); NeighborIndicesInEpoch applies the same predicate to (i, index) and skips i == index; AllNeighborValidators adds Previous[index] and Next[index] when they exist; ValidatorManager.IsNeighbor uses the in-epoch relation for current validators and the same-index cross-epoch relation otherwise", 7)
-	plain, swapped := condSetSwapped(isn, 1, 2)
-	c.Check(strings.Join(plain, ";") == strings.Join(swapped, ";"), "C29.neighbour-relation", funcKey(isn)+" · symmetry", isn.Pos(), "tests invariant under a ↔ b", fmt.Sprintf("tests are not symmetric: %v vs %v after exchanging a and b", abbrAll(plain), abbrAll(swapped)))
-	o2 := shapeOpts
-	o2.swap = [2]int{1, 2}
-	var retPlain, retSwap []string
-	allInstrs(isn, func(in ssa.Instruction) {
-		if r, ok := in.(*ssa.Return); ok {
-			retPlain = append(retPlain, exprStr(r.Results[0], shapeOpts))
-			retSwap = append(retSwap, exprStr(r.Results[0], o2))
 		}
-	})
-	sort.Strings(retPlain)
-	sort.Strings(retSwap)
-	c.Check(strings.Join(retPlain, ";") == strings.Join(retSwap, ";"), "C29.neighbour-relation", funcKey(isn)+" · symmetric result", isn.Pos(), "result expression invariant under a ↔ b", "the returned expression changes when a and b are exchanged")
-	c.checkCondSet("C29.neighbour-relation", funcKey(isn), isn, []string{"((p1 / " + W + ") == (p2 / " + W + "))", "(0 == len(p0.Current))", "(len(p0.Current) <= p1)", "(len(p0.Current) <= p2)", "(p1 < 0)", "(p1 == p2)", "(p2 < 0)"})
-	c.checkShapes("C29.neighbour-relation", funcKey(isn), isn, abbrMap(returnShapes(isn)), map[string][]string{"ret": {"false", "phi(((p1 % " + W + ") == (p2 % " + W + ")) | true)"}})
+		c.Check(bad == "", "C29.neighbour-relation", funcKey(isn)+" · relation", isn.Pos(), fmt.Sprintf("equals the row/column relation for n = 0..%d and all a, b in -1..n (symmetric, irreflexive)", maxN), bad)
+	}
 	{
-		// a == b leads to false
-		eq := condEdges(isn, func(v ssa.Value) (bool, bool) { return exprStr(v, shapeOpts) == "(p1 == p2)", true })
-		ok := len(eq) == 1
-		if ok {
-			_, reachTrue := findPath(pathQuery{startEdges: eq, target: func(in ssa.Instruction) bool {
-				r, isR := in.(*ssa.Return)
-				if !isR {
-					return false
+		// NeighborIndicesInEpoch: the indices appended, in order
+		bad := ""
+		maxN := c.Deep(40, 140)
+		for n := int64(0); n <= maxN && bad == ""; n++ {
+			for idx := int64(-1); idx <= n; idx++ {
+				var got []int64
+				evalOK := true
+				env := intEnv{params: map[ssa.Value]int64{nb.Params[1]: idx}, flens: map[string]int64{"Current": n}, lens: map[ssa.Value]int64{}, unknown: map[ssa.Value]bool{}, closed: true, cells: map[ssa.Value]int64{}}
+				env.watch = func(in ssa.Instruction, e intEnv) {
+					call, ok := in.(*ssa.Call)
+					if !ok {
+						return
+					}
+					if b, ok := call.Call.Value.(*ssa.Builtin); !ok || b.Name() != "append" || len(call.Call.Args) != 2 {
+						return
+					}
+					for _, ev := range appendedElems(call.Call.Args[1]) {
+						k, ok := evalInt(ev, e, 0)
+						if !ok {
+							evalOK = false
+						}
+						got = append(got, k)
+					}
 				}
-				k, isC := r.Results[0].(*ssa.Const)
-				return !(isC && k.Value != nil && k.Value.String() == "false")
-			}})
-			ok = !reachTrue
-		}
-		c.Check(ok, "C29.neighbour-relation", funcKey(isn)+" · irreflexive", isn.Pos(), "a == b ⇒ false", "a validator can be its own neighbour")
-	}
-	c.checkCondSet("C29.neighbour-relation", funcKey(nb), nb, []string{"((* % " + W + ") == (p1 % " + W + "))", "((* / " + W + ") == (p1 / " + W + "))", "(* < len(p0.Current))", "(* == p1)", "(0 == len(p0.Current))", "(len(p0.Current) <= p1)", "(p1 < 0)"})
-	{
-		// the append is skipped when i == index and performed when row or column matches
-		var app ssa.Instruction
-		allInstrs(nb, func(in ssa.Instruction) {
-			if call, ok := in.(*ssa.Call); ok {
-				if b, ok := call.Call.Value.(*ssa.Builtin); ok && b.Name() == "append" {
-					app = in
+				_, ok := runFunc(nb, env)
+				if !ok || !evalOK {
+					bad = fmt.Sprintf("NeighborIndicesInEpoch is not a pure function of (index, |Current|) (evaluation stops at n=%d index=%d)", n, idx)
+					break
+				}
+				var want []int64
+				for i := int64(0); i < n; i++ {
+					if refNeighbour(i, idx, n) {
+						want = append(want, i)
+					}
+				}
+				if fmt.Sprint(got) != fmt.Sprint(want) {
+					bad = fmt.Sprintf("NeighborIndicesInEpoch(%d) with %d validators collects %v; the row/column neighbours are %v", idx, n, got, want)
+					break
 				}
 			}
-		})
-		self := condEdges(nb, func(v ssa.Value) (bool, bool) { return exprStr(v, shapeOpts) == "(* == p1)", false })
-		row := condEdges(nb, func(v ssa.Value) (bool, bool) { return strings.HasPrefix(exprStr(v, shapeOpts), "((* / "), true })
-		col := condEdges(nb, func(v ssa.Value) (bool, bool) { return strings.HasPrefix(exprStr(v, shapeOpts), "((* % "), true })
-		ok := app != nil && len(self) == 1 && len(row) == 1 && len(col) == 1 && guardedBy(nb, app, self) && guardedBy(nb, app, append(append([]edge{}, row...), col...)) && !guardedBy(nb, app, row) && !guardedBy(nb, app, col)
-		elem := ""
-		if app != nil {
-			elem = exprStr(app.(*ssa.Call).Call.Args[1], shapeOpts)
 		}
-		c.Check(ok && elem == "[*][:]", "C29.neighbour-relation", funcKey(nb)+" · selection", nb.Pos(), "index i collected iff i ≠ index ∧ (same row ∨ same column)", "NeighborIndicesInEpoch does not collect exactly the other indices sharing a row or a column")
+		c.Check(bad == "", "C29.neighbour-relation", funcKey(nb)+" · selection", nb.Pos(), fmt.Sprintf("collects exactly the other indices sharing a row or a column, ascending (n = 0..%d, every index)", maxN), bad)
+		c.Check(returnsItsAppends(nb), "C29.neighbour-relation", funcKey(nb)+" · result", nb.Pos(), "the collected list is what is returned", "NeighborIndicesInEpoch does not return the list it collects")
 	}
-	c.checkCondSet("C29.neighbour-relation", funcKey(all), all, []string{"(* < len((*" + valPkg + ".GridMapper).NeighborIndicesInEpoch(p0, p1)))", "(p1 < 0)", "(p1 < len(p0.Next))", "(p1 < len(p0.Previous))"})
 	{
 		var elems []string
 		allInstrs(all, func(in ssa.Instruction) {
 			if call, ok := in.(*ssa.Call); ok {
 				if b, ok := call.Call.Value.(*ssa.Builtin); ok && b.Name() == "append" {
-					elems = append(elems, abbr(exprStr(call.Call.Args[1], shapeOpts)))
+					elems = append(elems, expandAlts(abbr(exprStr(call.Call.Args[1], o)))...)
 				}
 			}
 		})
-		sort.Strings(elems)
-		want := []string{"[p0.Current[(*" + valPkg + ".GridMapper).NeighborIndicesInEpoch(p0, p1)[*]]][:]", "[p0.Next[p1]][:]", "[p0.Previous[p1]][:]"}
-		c.Check(strings.Join(elems, ";") == strings.Join(want, ";"), "C29.neighbour-relation", funcKey(all)+" · members", all.Pos(), "in-epoch neighbours ∪ {Previous[index], Next[index]}", fmt.Sprintf("AllNeighborValidators collects %v", elems))
+		elems = uniqSorted(elems)
+		NB := "(*" + valPkg + ".GridMapper).NeighborIndicesInEpoch(p0, p1)"
+		c.requireSet("C29.neighbour-relation", funcKey(all)+" · members", all.Pos(), "AllNeighborValidators collects", elems, []string{"[p0.Current[" + NB + "[*]]][:]", "[p0.Next[p1]][:]", "[p0.Previous[p1]][:]"})
+		c.requireAtoms("C29.neighbour-relation", funcKey(all), all, o, []string{"(p1 < len(p0.Next))", "(p1 < len(p0.Previous))"})
 	}
 	G := "(*" + valPkg + ".GridMapper)."
-	c.checkShapes("C29.neighbour-relation", funcKey(vmn), vmn, abbrMap(returnShapes(vmn)), map[string][]string{"ret": {G + "IsNeighborInEpoch(p0.Grid, p0.SelfIndex, " + G + "FindIndex(p0.Grid, p1)#0)", G + "IsSameIndexCrossEpoch(p0.Grid, p0.SelfIndex, p1)", "false"}})
-	c.checkCondSet("C29.neighbour-relation", funcKey(cross), cross, []string{"(p0.Next[p1].Ed25519 == p2)", "(p0.Previous[p1].Ed25519 == p2)", "(p1 < 0)", "(p1 < len(p0.Next))", "(p1 < len(p0.Previous))"})
-
-	c.Rule("C29.initiator", "PreferredInitiator returns its first argument exactly when (a[31] > 127) ⊕ (b[31] > 127) ⊕ (a < b) with a < b the comparison of all 32 bytes, and its second argument otherwise; with a ≠ b the order test is antisymmetric, so the eight-row truth table gives P(a,b) = P(b,a) ∈ {a, b}", 3)
 	{
-		var cond ssa.Value
-		allInstrs(pi, func(in ssa.Instruction) {
-			if i, ok := in.(*ssa.If); ok {
-				cond = i.Cond
-			}
+		var rets []string
+		for _, s := range abbrMap(returnShapesO(vmn, o))["ret"] {
+			rets = append(rets, expandAlts(s)...)
+		}
+		c.requireSet("C29.neighbour-relation", funcKey(vmn)+" · results", vmn.Pos(), "IsNeighbor returns", uniqSorted(rets), []string{G + "IsNeighborInEpoch(p0.Grid, p0.SelfIndex, " + G + "FindIndex(p0.Grid, p1)#0)", G + "IsSameIndexCrossEpoch(p0.Grid, p0.SelfIndex, p1)", "false"})
+		// the in-epoch relation is used exactly when FindIndex reports the key as a current validator
+		okSel := true
+		found := condEdges(vmn, func(v ssa.Value) (bool, bool) {
+			return strings.HasSuffix(abbr(exprStr(v, o)), "FindIndex(p0.Grid, p1)#1"), true
 		})
-		// flatten the XOR tree
-		var atoms []ssa.Value
-		var flat func(v ssa.Value)
-		flat = func(v ssa.Value) {
-			if b, ok := v.(*ssa.BinOp); ok && b.Op == token.NEQ && isBoolT(b.X.Type()) {
-				flat(b.X)
-				flat(b.Y)
+		nfound := condEdges(vmn, func(v ssa.Value) (bool, bool) {
+			return strings.HasSuffix(abbr(exprStr(v, o)), "FindIndex(p0.Grid, p1)#1"), false
+		})
+		allInstrs(vmn, func(in ssa.Instruction) {
+			call, ok := in.(*ssa.Call)
+			if !ok || call.Call.StaticCallee() == nil {
 				return
 			}
-			atoms = append(atoms, v)
-		}
-		if cond != nil {
-			flat(cond)
-		}
-		var kinds []string
-		fullCompare := false
-		for _, a := range atoms {
-			s := exprStr(a, shapeOpts)
-			switch s {
-			case "(127 < cell(p0)[31])":
-				kinds = append(kinds, "A")
-			case "(127 < cell(p1)[31])":
-				kinds = append(kinds, "B")
-			case "(bytes.Compare(cell(p0)[:], cell(p1)[:]) < 0)":
-				kinds = append(kinds, "L")
-				// both operands are the whole 32-byte arrays
-				if bo, ok := a.(*ssa.BinOp); ok {
-					if call, ok := bo.X.(*ssa.Call); ok {
-						full := true
-						for _, arg := range call.Call.Args {
-							sl, ok := arg.(*ssa.Slice)
-							if !ok || sl.Low != nil || sl.High != nil {
-								full = false
-							}
-						}
-						fullCompare = full
-					}
+			switch call.Call.StaticCallee() {
+			case isn:
+				if !guardedBy(vmn, call, found) {
+					okSel = false
 				}
-			default:
-				kinds = append(kinds, "?"+s)
-			}
-		}
-		sort.Strings(kinds)
-		okX := strings.Join(kinds, "") == "ABL" && fullCompare
-		// truth table: with G = ¬L (a ≠ b), P(a,b) picks a iff A⊕B⊕L; P(b,a) picks b iff B⊕A⊕G = ¬(A⊕B⊕L): same key in all 8 rows
-		rows := 0
-		if okX {
-			for m := 0; m < 8; m++ {
-				A, B, L := m&1 == 1, m&2 == 2, m&4 == 4
-				pickAB := (A != B) != L  // P(a,b) returns a
-				pickBA := (B != A) != !L // P(b,a) returns b
-				if pickAB == !pickBA {
-					rows++
-				}
-			}
-		}
-		c.Check(okX && rows == 8, "C29.initiator", V+"PreferredInitiator · condition", pi.Pos(), "A ⊕ B ⊕ (a < b over all 32 bytes); 8/8 truth-table rows agree for both argument orders", fmt.Sprintf("selection condition has atoms %v (full-width comparison=%v): the two peers can disagree", kinds, fullCompare))
-		// arms: true → a, false → b
-		pass := condEdges(pi, func(v ssa.Value) (bool, bool) { return v == cond, true })
-		okArms := len(pass) == 1
-		allInstrs(pi, func(in ssa.Instruction) {
-			if r, ok := in.(*ssa.Return); ok {
-				s := exprStr(r.Results[0], shapeOpts)
-				if (s == "*cell(p0)") != guardedBy(pi, r, pass) {
-					okArms = false
-				}
-				if s != "*cell(p0)" && s != "*cell(p1)" {
-					okArms = false
+			case cross:
+				if !guardedBy(vmn, call, nfound) {
+					okSel = false
 				}
 			}
 		})
-		c.Check(okArms, "C29.initiator", V+"PreferredInitiator · arms", pi.Pos(), "a on the true arm, b on the false arm, nothing else", "the result is not a on the true arm and b on the false arm")
-		c.checkShapes("C29.initiator", V+"PreferredInitiator", pi, abbrMap(returnShapes(pi)), map[string][]string{"ret": {"*cell(p0)", "*cell(p1)"}})
+		c.Check(okSel && len(found) > 0, "C29.neighbour-relation", funcKey(vmn)+" · dispatch", vmn.Pos(), "in-epoch relation iff the key is a current validator, cross-epoch relation otherwise", "IsNeighbor does not select the relation by whether the key is a current validator")
 	}
-	return "Grid-neighbour and initiator mechanisms decided statically: the width is the plain truncation of the square root; IsNeighborInEpoch's tests and result are invariant under exchanging its two indices, exclude a == b and consist of the row and column equalities; NeighborIndicesInEpoch uses the same predicate and width; cross-epoch members are Previous[index]/Next[index]; PreferredInitiator's condition is the three-way XOR of the two high-bit tests and a full-width byte comparison, whose truth table makes both argument orders pick the same key.",
-		[]string{"canonical renderer with a parameter-exchange option", "not decided: floating-point exactness of ⌊√V⌋ for every V"}
+	c.requireAtoms("C29.neighbour-relation", funcKey(cross), cross, o, []string{"(p0.Next[p1].Ed25519 == p2)", "(p0.Previous[p1].Ed25519 == p2)", "(p1 < len(p0.Next))", "(p1 < len(p0.Previous))"})
+
+	c.Rule("C29.initiator", "PreferredInitiator(a, b), evaluated on keys whose first and last bytes range over {0, 127, 128, 255} (all combinations of the two high bits and of a < b / a > b, with the order decided at either end of the key), returns a exactly when (a[31] > 127) ⊕ (b[31] > 127) ⊕ (a < b) over all 32 bytes and b otherwise; consequently P(a,b) = P(b,a) ∈ {a, b}", 2)
+	{
+		vals := []byte{0, 127, 128, 255}
+		bad := ""
+		nEval := 0
+		pick := func(a, b [32]byte) (string, bool) {
+			env := intEnv{params: map[ssa.Value]int64{}, lens: map[ssa.Value]int64{}, unknown: map[ssa.Value]bool{}, closed: true, cells: map[ssa.Value]int64{}}
+			arr := func(v ssa.Value) (*[32]byte, bool) {
+				switch abbr(exprStr(v, shapeOpts)) {
+				case "cell(p0)", "p0", "&cell(p0)":
+					return &a, true
+				case "cell(p1)", "p1", "&cell(p1)":
+					return &b, true
+				}
+				return nil, false
+			}
+			sliceOf := func(v ssa.Value) ([]byte, bool) {
+				sl, ok := v.(*ssa.Slice)
+				if !ok {
+					return nil, false
+				}
+				base, ok := arr(sl.X)
+				if !ok {
+					return nil, false
+				}
+				lo, hi := int64(0), int64(32)
+				if sl.Low != nil {
+					if lo, ok = constInt(sl.Low); !ok {
+						return nil, false
+					}
+				}
+				if sl.High != nil {
+					if hi, ok = constInt(sl.High); !ok {
+						return nil, false
+					}
+				}
+				if lo < 0 || hi > 32 || lo > hi {
+					return nil, false
+				}
+				return base[lo:hi], true
+			}
+			env.opaque = func(v ssa.Value) (int64, bool) {
+				switch x := v.(type) {
+				case *ssa.UnOp:
+					if ia, ok := x.X.(*ssa.IndexAddr); ok && x.Op == token.MUL {
+						if base, ok := arr(ia.X); ok {
+							if k, ok := constInt(ia.Index); ok && k >= 0 && k < 32 {
+								return int64(base[k]), true
+							}
+						}
+					}
+				case *ssa.Index:
+					if base, ok := arr(x.X); ok {
+						if k, ok := constInt(x.Index); ok && k >= 0 && k < 32 {
+							return int64(base[k]), true
+						}
+					}
+				case *ssa.Call:
+					if sc := x.Call.StaticCallee(); sc != nil && len(x.Call.Args) == 2 {
+						switch sc.String() {
+						case "bytes.Compare", "bytes.Equal":
+							p, ok1 := sliceOf(x.Call.Args[0])
+							q, ok2 := sliceOf(x.Call.Args[1])
+							if ok1 && ok2 {
+								if sc.String() == "bytes.Equal" {
+									if bytes.Equal(p, q) {
+										return 1, true
+									}
+									return 0, true
+								}
+								return int64(bytes.Compare(p, q)), true
+							}
+						}
+					}
+				}
+				return 0, false
+			}
+			n := 20000
+			env.fuel = &n
+			last := walkBlocks(pi.Blocks[0], nil, env, func(*ssa.BasicBlock) bool { return false })
+			if last == nil {
+				return "", false
+			}
+			r, ok := last.Instrs[len(last.Instrs)-1].(*ssa.Return)
+			if !ok || len(r.Results) != 1 {
+				return "", false
+			}
+			switch abbr(exprStr(r.Results[0], shapeOpts)) {
+			case "*cell(p0)", "p0", "cell(p0)":
+				return "a", true
+			case "*cell(p1)", "p1", "cell(p1)":
+				return "b", true
+			}
+			return abbr(exprStr(r.Results[0], shapeOpts)), true
+		}
+	outer:
+		for _, a0 := range vals {
+			for _, a31 := range vals {
+				for _, b0 := range vals {
+					for _, b31 := range vals {
+						for _, mid := range []int{0, 1, 2} { // middle byte: equal / a smaller / a larger
+							var a, b [32]byte
+							a[0], a[31], b[0], b[31] = a0, a31, b0, b31
+							switch mid {
+							case 1:
+								b[15] = 1
+							case 2:
+								a[15] = 1
+							}
+							if a == b {
+								continue
+							}
+							nEval++
+							got, ok := pick(a, b)
+							if !ok {
+								bad = "the selection is not a function of key bytes and a byte-wise comparison of the two whole keys (evaluation stops)"
+								break outer
+							}
+							wantA := ((a[31] > 127) != (b[31] > 127)) != (bytes.Compare(a[:], b[:]) < 0)
+							want := "b"
+							if wantA {
+								want = "a"
+							}
+							if got != want {
+								bad = fmt.Sprintf("for a = %02x…%02x…%02x and b = %02x…%02x…%02x PreferredInitiator returns %s; (a[31] > 127) ⊕ (b[31] > 127) ⊕ (a < b) selects %s, so the two peers can disagree", a[0], a[15], a[31], b[0], b[15], b[31], got, want)
+								break outer
+							}
+						}
+					}
+				}
+			}
+		}
+		c.Check(bad == "", "C29.initiator", V+"PreferredInitiator · selection", pi.Pos(), fmt.Sprintf("returns a iff A ⊕ B ⊕ (a < b), else b, on %d key pairs covering every combination of high bits and orderings", nEval), bad)
+		rs := abbrMap(returnShapesO(pi, shapeOpts))["ret"]
+		okR := len(rs) > 0
+		for _, s := range rs {
+			for _, alt := range expandAlts(s) {
+				if alt != "*cell(p0)" && alt != "*cell(p1)" {
+					okR = false
+				}
+			}
+		}
+		c.Check(okR, "C29.initiator", V+"PreferredInitiator · results", pi.Pos(), "every result is one of the two keys", fmt.Sprintf("PreferredInitiator can return %v", rs))
+	}
+	return "Grid-neighbour and initiator mechanisms decided statically by evaluating the decision functions over SSA (helpers and closures seen through): ComputeWidth = max(1, ⌊√n⌋) over the validator-count range; IsNeighborInEpoch equals the row/column relation (symmetric, irreflexive) for every set size up to the bound and every index pair; NeighborIndicesInEpoch collects exactly those indices; cross-epoch members are Previous[index]/Next[index]; PreferredInitiator selects by the three-way XOR of the two high-bit tests and the full-width comparison on key pairs covering every combination.",
+		[]string{"compile-time style evaluation of pure integer/boolean SSA (no program state; inputs enumerated over the stated finite domains)", "not decided: sizes beyond the evaluated bound; keys that differ only in bytes other than 0, 15, 31"}
+}
+
+// appendedElems: the element values of append's variadic argument when it is
+// a literal element list ([e1, e2][:]).
+func appendedElems(v ssa.Value) []ssa.Value {
+	if sl, ok := v.(*ssa.Slice); ok {
+		if a, ok := sl.X.(*ssa.Alloc); ok {
+			if es := arrayLiteral(a); es != nil {
+				return es
+			}
+		}
+	}
+	return nil
+}
+
+// returnsItsAppends: every non-nil return value of f is built from f's append calls.
+func returnsItsAppends(f *ssa.Function) bool {
+	ok := true
+	seenAppend := false
+	var fromAppend func(v ssa.Value, seen map[ssa.Value]bool) bool
+	fromAppend = func(v ssa.Value, seen map[ssa.Value]bool) bool {
+		if seen[v] {
+			return true
+		}
+		seen[v] = true
+		switch x := v.(type) {
+		case *ssa.Const:
+			return x.Value == nil
+		case *ssa.MakeSlice:
+			return true
+		case *ssa.Call:
+			if b, isB := x.Call.Value.(*ssa.Builtin); isB && b.Name() == "append" {
+				seenAppend = true
+				return fromAppend(x.Call.Args[0], seen)
+			}
+			return false
+		case *ssa.Phi:
+			for _, e := range x.Edges {
+				if !fromAppend(e, seen) {
+					return false
+				}
+			}
+			return true
+		case *ssa.ChangeType:
+			return fromAppend(x.X, seen)
+		case *ssa.Slice:
+			return fromAppend(x.X, seen)
+		}
+		return false
+	}
+	allInstrs(f, func(in ssa.Instruction) {
+		if r, isR := in.(*ssa.Return); isR && len(r.Results) == 1 {
+			if !fromAppend(r.Results[0], map[ssa.Value]bool{}) {
+				ok = false
+			}
+		}
+	})
+	return ok && seenAppend
+}
+
+func uniqSorted(xs []string) []string {
+	m := map[string]bool{}
+	for _, x := range xs {
+		m[x] = true
+	}
+	var out []string
+	for x := range m {
+		out = append(out, x)
+	}
+	sort.Strings(out)
+	return out
+}
+
+// expandAlts distributes phi(a | b) alternatives outward: the set of terms a
+// rendered value may denote ("phi(x | y)[i]" ↦ {"x[i]", "y[i]"}).
+func expandAlts(s string) []string {
+	i := strings.Index(s, "phi(")
+	if i < 0 {
+		return []string{s}
+	}
+	// matching paren
+	depth, j := 0, -1
+	for k := i + 3; k < len(s); k++ {
+		switch s[k] {
+		case '(':
+			depth++
+		case ')':
+			depth--
+			if depth == 0 {
+				j = k
+			}
+		}
+		if j >= 0 {
+			break
+		}
+	}
+	if j < 0 {
+		return []string{s}
+	}
+	inner := s[i+4 : j]
+	var alts []string
+	depth, start := 0, 0
+	for k := 0; k < len(inner); k++ {
+		switch inner[k] {
+		case '(', '[', '{':
+			depth++
+		case ')', ']', '}':
+			depth--
+		case '|':
+			if depth == 0 && k > 0 && inner[k-1] == ' ' && k+1 < len(inner) && inner[k+1] == ' ' {
+				alts = append(alts, inner[start:k-1])
+				start = k + 2
+			}
+		}
+	}
+	alts = append(alts, inner[start:])
+	var out []string
+	for _, a := range alts {
+		for _, e := range expandAlts(s[:i] + a + s[j+1:]) {
+			out = append(out, e)
+			if len(out) > 64 {
+				return out
+			}
+		}
+	}
+	return uniqSorted(out)
 }
 
 func isBoolT(t types.Type) bool {
